@@ -127,6 +127,9 @@ def run_history(job):
                 tb.delete_row(op["n"], op["at"] - 1)
             elif k == "delcol":
                 tb.delete_column(op["n"], op["at"] - 1)
+            elif k == "addtable":
+                t2 = doc.sheets[0].add_table(num_rows=tb.num_rows, num_cols=tb.num_cols, num_header_rows=0, num_header_cols=0)
+                e["fresh"] = picture(t2)
             elif k == "save":
                 doc.save(path)
                 e["re"] = picture(Document(path).sheets[0].tables[0])
@@ -177,9 +180,9 @@ def validate(ctx, traces, label):
                 key = {"engine": "trace", "clause": clause, "label": label, "op": op, "exc": (ev.get("exc") or "").split(":")[0],
                        "merge_then_structural": "merge" in prior and any(o in ("addrow", "addcol", "delrow", "delcol") for o in prior[prior.index("merge"):])}
                 ctx.fail(key, "trace rejected at event %d (%s): %s; ops %s; post %s%s"
-                         % (l, op, clause, json.dumps([{k: v for k, v in e.items() if k not in ("post", "re")} for e in t["ev"][:l]])[:500],
+                         % (l, op, clause, json.dumps([{k: v for k, v in e.items() if k not in ("post", "re", "fresh")} for e in t["ev"][:l]])[:500],
                             json.dumps(ev.get("post"))[:400], (" reopened " + json.dumps(ev["re"])[:300]) if "re" in ev else ""),
-                         {"ops": [{k: v for k, v in e.items() if k not in ("post", "re")} for e in t["ev"]], "init": [t["init"]["nr"], t["init"]["nc"]]})
+                         {"ops": [{k: v for k, v in e.items() if k not in ("post", "re", "fresh")} for e in t["ev"]], "init": [t["init"]["nr"], t["init"]["nc"]]})
     return rejected
 
 
@@ -277,7 +280,12 @@ def run(ctx):
             elif k < 0.7:
                 ops.append({"op": "save"})
         ops.append({"op": "save"})
+        if i % 3 == 0:
+            # a sibling table added once the merges have been written to a file (and, after the reopen, to a loaded document)
+            ops.append({"op": "addtable"})
         ops.append({"op": "reopen"})
+        if i % 3 == 1:
+            ops += [{"op": "addtable"}, {"op": "save"}]
         extra.append((100000 + i, ops, (nr, nc), ctx.scratch, False))
     # a persisted merge that later disappears altogether: merge, save, delete every row (or column) of the rectangle, save, reopen -
     # the second file must not show the rectangle of the first
@@ -303,7 +311,7 @@ def run(ctx):
     traces = pmap(run_history, jobs + extra, ctx.workers, chunksize=8)
     ctx.evaluations += len(traces)
     for t in traces:
-        ctx.distinct.add(json.dumps([{k: v for k, v in e.items() if k not in ("post", "re")} for e in t["ev"]], sort_keys=True))
+        ctx.distinct.add(json.dumps([{k: v for k, v in e.items() if k not in ("post", "re", "fresh")} for e in t["ev"]], sort_keys=True))
     ctx.sample({"history": hist[0]})
     ctx.sample({"history_on_larger_table": extra[0][1], "shape": extra[0][2]})
     ctx.stage("validate")
@@ -336,7 +344,8 @@ def run(ctx):
 def fx_check(ctx):
     """code -> spec on loaded documents: the merge picture of every fixture table must be self-consistent, and the same after a re-save"""
     from .. import fixtures
-    fx = [p for p in fixtures.readable_fixtures(ctx.workers) if "merge" in os.path.basename(p).lower() or not ctx.quick]
+    keep = ("merge", "test-9", "test-styles", "test-titles", "issue-77", "issue-59", "test-4.")
+    fx = [p for p in fixtures.readable_fixtures(ctx.workers) if any(k in os.path.basename(p).lower() for k in keep) or not ctx.quick]
     res = fixtures.pmap(fx_job, [(p, ctx.scratch) for p in fx], ctx.workers)
     traces = [t for lst in res for t in lst]
     ctx.evaluations += len(traces)
@@ -364,6 +373,23 @@ def fx_job(j):
         for si, ti, pic in pics:
             re_pic = picture(doc2.sheets[si].tables[ti])
             out.append({"init": pic, "ev": [{"op": "save", "post": pic, "re": re_pic}], "meta": {"fixture": os.path.basename(path), "sheet": si, "table": ti}})
+        # merges that came with the document follow an insertion before them like any others, also in the file saved afterwards
+        for si, ti, pic in pics:
+            if pic["bad"] or pic["nr"] * pic["nc"] > 1500:
+                continue
+            d3 = Document(path)
+            t3 = d3.sheets[si].tables[ti]
+            evs = []
+            if min(r[1] for r in pic["ranges"]) > 1 and si % 2:
+                t3.add_column(1, 0)
+                evs.append({"op": "addcol", "n": 1, "at": 1, "d": "e", "post": picture(t3)})
+            else:
+                t3.add_row(1, 0)
+                evs.append({"op": "addrow", "n": 1, "at": 1, "d": "e", "post": picture(t3)})
+            d3.save(tmp)
+            evs.append({"op": "save", "post": picture(t3), "re": picture(Document(tmp).sheets[si].tables[ti])})
+            os.remove(tmp)
+            out.append({"init": pic, "ev": evs, "meta": {"fixture": os.path.basename(path), "sheet": si, "table": ti, "edit": evs[0]["op"]}})
     except Exception as e:  # noqa: BLE001
         out.append({"init": {"nr": 1, "nc": 1, "anchors": [], "place": [], "ranges": [], "cells": [], "bad": 0},
                     "ev": [{"op": "save", "exc": type(e).__name__, "post": {"nr": 0, "nc": 0, "anchors": [], "place": [], "ranges": [], "cells": [], "bad": 99},
